@@ -78,7 +78,10 @@ func BuildUnixFSFile(r io.Reader, chunker string, ls *ipld.LinkSystem) (ipld.Lin
 			if next.link == nil {
 				node := basicnode.NewBytes([]byte{})
 				link, err := ls.Store(ipld.LinkContext{}, leafLinkProto, node)
-				return link, 0, err
+				if err != nil {
+					return nil, 0, err
+				}
+				return link, 0, nil
 			}
 			return next.link, next.storedSize, nil
 		}
